@@ -405,7 +405,7 @@ pub fn small_case(rng: &mut Rng, variant: Variant, kind: MatchKind, miri: bool) 
     if !miri && variant == Variant::Bytewise && rng.below(150) == 0 {
         return hub_case(rng, kind);
     }
-    if !miri && variant == Variant::Bytewise && rng.below(120) == 0 {
+    if !miri && variant == Variant::Bytewise && rng.below(40) == 0 {
         return random_chain_case(rng, kind);
     }
     if !miri && variant == Variant::Bytewise && rng.below(150) == 0 {
@@ -510,7 +510,16 @@ pub fn large_case(rng: &mut Rng, variant: Variant, kind: MatchKind, max_patterns
 
 /// W11: more than 65 536 patterns (output positions beyond 16 bits, tens of thousands of states):
 /// every 2-symbol string over a full alphabet plus some 1- and 3-symbol ones.
+/// W11 with the common leading symbol forced (one symbol occurs more than 65 536 times).
+pub fn many_patterns_common(rng: &mut Rng, variant: Variant, kind: MatchKind) -> Case {
+    many_patterns_impl(rng, variant, kind, Some(true))
+}
+
 pub fn many_patterns_case(rng: &mut Rng, variant: Variant, kind: MatchKind) -> Case {
+    many_patterns_impl(rng, variant, kind, None)
+}
+
+fn many_patterns_impl(rng: &mut Rng, variant: Variant, kind: MatchKind, force_common: Option<bool>) -> Case {
     let alpha: Vec<Sym> = match variant {
         Variant::Bytewise => (0u32..256).map(|b| vec![b as u8]).collect(),
         Variant::Charwise => {
@@ -521,7 +530,8 @@ pub fn many_patterns_case(rng: &mut Rng, variant: Variant, kind: MatchKind) -> C
     let mut pats: Vec<Vec<u8>> = Vec::with_capacity(alpha.len() * alpha.len() + 3000);
     // half of the time every 2-symbol pattern is preceded by one common symbol, so that a single
     // symbol occurs more than 65 536 times in the pattern set
-    let common: Option<Sym> = if rng.chance(1, 2) { Some(rng.pick(&alpha).clone()) } else { None };
+    let want_common = force_common.unwrap_or_else(|| rng.chance(1, 2));
+    let common: Option<Sym> = if want_common { Some(rng.pick(&alpha).clone()) } else { None };
     for a in &alpha {
         for b in &alpha {
             let mut p = common.clone().unwrap_or_default();
@@ -773,9 +783,12 @@ pub fn dense_case(rng: &mut Rng, kind: MatchKind, r: usize, c: usize, extras: us
 /// one-byte patterns 0x00 / 0x01, so that a stale CHECK in any leftover slot changes behaviour.
 pub fn random_chain_case(rng: &mut Rng, kind: MatchKind) -> Case {
     let mut pats: Vec<Vec<u8>> = Vec::new();
+    // either uniformly random bytes or a random word over a tiny alphabet ({1,2}, {a,b}, ...): with
+    // two labels the BASE values of consecutive single-child states fill a block almost completely
+    let tiny: Option<Vec<u8>> = if rng.chance(1, 2) { Some(rng.pick(&[vec![1u8, 2], vec![b'a', b'b'], vec![0x01, 0xFF], vec![2, 3, 5]]).clone()) } else { None };
     for _ in 0..rng.range(1, 3) {
-        let len = rng.range(300, 3000);
-        pats.push((0..len).map(|_| rng.below(256) as u8).collect());
+        let len = if tiny.is_some() { rng.range(300, 1100) } else { rng.range(300, 3000) };
+        pats.push((0..len).map(|_| match &tiny { Some(t) => *rng.pick(t), None => rng.below(256) as u8 }).collect());
     }
     pats.push(vec![0x00]);
     if rng.chance(1, 2) {
